@@ -52,5 +52,16 @@ pub proof fn contract_c05_5_feed_state(eos: L_Eos, t: real, p: real, feed: RArr,
         new_npt(eos, t, p, feed, L_DensityInitialization::None) is Ok ==>
             pe_tp_flash(eos, t, p, feed, init, options, nv) == tp_flash(new_npt(eos, t, p, feed, L_DensityInitialization::None)->Ok_0, init, options, nv),
 {}
+
+// ---- update_pressure: EVERY phase is re-created at exactly the given temperature and pressure, from its own amounts
+// (observed inside the loop over the phases for an arbitrary iteration, L17e)
+//@lift feos-core/src/phase_equilibria/mod.rs PhaseEquilibrium::update_pressure name=pe_update_pressure loopvars=s:L_State observe=@new_npt.1:real,@new_npt.2:real,@new_npt.3:RArr observe_only
+//@end
+pub proof fn contract_c05_5_update_pressure(pe: L_PE, t: real, p: real)
+    ensures
+        pe_update_pressure__new_npt_arg1(pe, t, p) == Ok::<real, LErr>(t),
+        pe_update_pressure__new_npt_arg2(pe, t, p) == Ok::<real, LErr>(p),
+        pe_update_pressure__new_npt_arg3(pe, t, p) == Ok::<RArr, LErr>(pe_update_pressure__loopvar_s(pe, t, p).moles),
+{}
 } // verus!
 fn main() {}
